@@ -54,6 +54,20 @@ inductive GA where
   | raises
 deriving Repr, Inhabited
 
+/-- what `match_tag` / `match_style` do with the answer of `get_attrs`: skip the rule (`False`), go on with
+    these `rule.attrs`, or die with the callback's exception -/
+inductive GARes where
+  | skip
+  | use (a : Option Attrs)
+  | crash
+
+def GA.resolve (ga : GA) (static : Option Attrs) : GARes :=
+  match ga with
+  | .absent => .use static
+  | .reject => .skip
+  | .attrs a => .use a
+  | .raises => .crash
+
 /-- one `prop: value` pair of `parse_styles(style)`; `getAttrs` = for the style rules (index into
     `Parser.styles`) that have a `get_attrs`, its answer on `value` -/
 structure StyleDecl where
@@ -355,11 +369,10 @@ def matchTag (P : Parser) (stack : List TypeId) : List (CandInfo × List DNode) 
       | some r =>
         if !contextOk P stack r.context then matchTag P stack rest start
         else
-          match c.ga with
-          | .absent => .ok (some ⟨c.idx, r, r.attrs, c, alt⟩)
-          | .reject => matchTag P stack rest start
-          | .attrs a => .ok (some ⟨c.idx, r, a, c, alt⟩)
-          | .raises => .error .internal
+          match c.ga.resolve r.attrs with
+          | .use a => .ok (some ⟨c.idx, r, a, c, alt⟩)
+          | .skip => matchTag P stack rest start
+          | .crash => .error .internal
 
 /-- the string test of `match_style`: `style.startswith(prop)` and, if `style` is longer, it continues with
     `=` and exactly `value` -/
@@ -389,36 +402,37 @@ def clearMarks (S : Schema) (clear : Mark → Bool) (top : NodeCtx) (acc : Style
   (top.pending ++ top.activeT).foldl (fun acc m =>
     if clear m.2 then { acc with remove := tAddToSet S m acc.remove } else acc) acc
 
+/-- the body of the `while True` loop of `read_styles` for a rule that matched: `.ok none` = an `ignore`
+    rule (`read_styles` returns `None`) -/
+def styleApply (P : Parser) (top : NodeCtx) (r : StyleRule) (attrs : Option Attrs) (acc : StyleAcc) : Res (Option StyleAcc) :=
+  if r.ignore then .ok none
+  else
+    match r.clearMark with
+    | some clear => .ok (some (clearMarks P.S clear top acc))
+    | none =>
+      match r.mark with
+      | some (some mt) =>
+        match createMark P.S mt attrs acc.next with
+        | .error e => .error e
+        | .ok (m, next) => .ok (some { acc with add := tAddToSet P.S m acc.add, next := next })
+      | _ => .error .internal        -- `schema.marks[rule.mark]`: KeyError
+
 /-- the `while True` loop of `read_styles` for one declaration, over the style rules not tried yet
-    (`match_style(prop, value, self, after)` looks at `_styles[index(after)+1:]`).  `.ok none` = an `ignore`
-    rule matched (`read_styles` returns `None`). -/
+    (`match_style(prop, value, self, after)` looks at `_styles[index(after)+1:]`) -/
 def styleLoop (P : Parser) (stack : List TypeId) (top : NodeCtx) (d : StyleDecl) :
     List (Nat × StyleRule) → StyleAcc → Res (Option StyleAcc)
   | [], acc => .ok (some acc)
   | (i, r) :: rest, acc =>
     if !(styleMatches r.style d.prop d.value && contextOk P stack r.context) then styleLoop P stack top d rest acc
     else
-      let ga := ((d.getAttrs.find? (·.1 == i)).map (·.2)).getD .absent
-      let go (attrs : Option Attrs) : Res (Option StyleAcc) :=
-        if r.ignore then .ok none
-        else
-          let acc' : Res StyleAcc := match r.clearMark with
-            | some clear => .ok (clearMarks P.S clear top acc)
-            | none =>
-              match r.mark with
-              | some (some mt) =>
-                match createMark P.S mt attrs acc.next with
-                | .error e => .error e
-                | .ok (m, next) => .ok { acc with add := tAddToSet P.S m acc.add, next := next }
-              | _ => .error .internal        -- `schema.marks[rule.mark]`: KeyError
-          match acc' with
-          | .error e => .error e
-          | .ok acc' => if r.consuming then .ok (some acc') else styleLoop P stack top d rest acc'
-      match ga with
-      | .absent => go r.attrs
-      | .reject => styleLoop P stack top d rest acc
-      | .attrs a => go a
-      | .raises => .error .internal
+      match (((d.getAttrs.find? (fun (x : Nat × GA) => x.1 == i)).map (·.2)).getD GA.absent).resolve r.attrs with
+      | .skip => styleLoop P stack top d rest acc
+      | .crash => .error .internal
+      | .use attrs =>
+        match styleApply P top r attrs acc with
+        | .error e => .error e
+        | .ok none => .ok none
+        | .ok (some acc') => if r.consuming then .ok (some acc') else styleLoop P stack top d rest acc'
 
 /-- `read_styles(styles)` -/
 def readStyles (P : Parser) (w : WState) (top : NodeCtx) : List StyleDecl → StyleAcc → Res (Option StyleAcc)
@@ -470,6 +484,19 @@ inductive BlockRes where
   | done (w : WState)                  -- `leaf_fallback(dom); return`
   | go (w : WState) (bc : BlockCtx)
 
+/-- `if top.content and top.content[0].is_inline and self.open: self.open -= 1; top = self.top` -/
+def stepOut (P : Parser) (w0 : WState) (top : NodeCtx) : Res (WState × NodeCtx) :=
+  if (match top.content.head? with
+      | some n => (P.S.nodeType (P.S.tyOf n)).isInline
+      | none => false) && w0.st.open_ != 0 then
+    match emit' P w0 (.setOpen (w0.st.open_ - 1)) with
+    | .error e => .error e
+    | .ok w1 =>
+      match w1.top with
+      | none => .error .internal
+      | some top1 => .ok (w1, top1)
+  else .ok (w0, top)
+
 /-- `add_element`, the branch `rule is None or rule.skip or rule.close_parent` (here: no rule, or
     `close_parent`), up to `add_all(dom)` -/
 def blockOpen (P : Parser) (w : WState) (tag : String) (noKids : Bool) (closeParent : Bool) : Res BlockRes :=
@@ -482,18 +509,7 @@ def blockOpen (P : Parser) (w : WState) (tag : String) (noKids : Bool) (closePar
     | some top =>
       let old := w0.st.needsBlock
       if blockTags.contains tag then
-        let w1 : Res (WState × NodeCtx) :=
-          if (match top.content.head? with
-              | some n => (P.S.nodeType (P.S.tyOf n)).isInline
-              | none => false) && w0.st.open_ != 0 then
-            match emit' P w0 (.setOpen (w0.st.open_ - 1)) with
-            | .error e => .error e
-            | .ok w1 =>
-              match w1.top with
-              | none => .error .internal
-              | some top1 => .ok (w1, top1)
-          else .ok (w0, top)
-        match w1 with
+        match stepOut P w0 top with
         | .error e => .error e
         | .ok (w1, top1) =>
           let w2 : Res WState := if top1.ty.isNone then emit' P w1 (.setNeedsBlock true) else .ok w1
@@ -519,9 +535,9 @@ structure RuleCtx where
   leaf : Bool
   startIn : Nat      -- identity of `start_in`
 
-/-- `add_element_by_rule` up to `start_in = self.top` -/
-def ruleOpen (P : Parser) (w : WState) (tag : String) (r : TagRule) (attrs : Option Attrs) : Res (WState × RuleCtx) :=
-  let first : Res (WState × Bool × Option TMark × Bool) :=
+/-- `add_element_by_rule`, the node / mark part: the state, `sync`, `mark`, whether the node type is a leaf -/
+def ruleFirst (P : Parser) (w : WState) (tag : String) (r : TagRule) (attrs : Option Attrs) :
+    Res (WState × Bool × Option TMark × Bool) :=
     match r.node with
     | some none => .error .internal            -- `schema.nodes[rule.node]`: KeyError
     | some (some t) =>
@@ -554,7 +570,10 @@ def ruleOpen (P : Parser) (w : WState) (tag : String) (r : TagRule) (attrs : Opt
           | .error e => .error e
           | .ok w1 => .ok (w1, false, some m, false)
       | none => .ok (w, false, none, false)
-  match first with
+
+/-- `add_element_by_rule` up to `start_in = self.top` -/
+def ruleOpen (P : Parser) (w : WState) (tag : String) (r : TagRule) (attrs : Option Attrs) : Res (WState × RuleCtx) :=
+  match ruleFirst P w tag r attrs with
   | .error e => .error e
   | .ok (w1, sync, mark, leaf) =>
     match w1.top with
@@ -616,29 +635,27 @@ def insertAll (P : Parser) : List Node → WState → Res WState
 theorem matchTag_some (P : Parser) (stack : List TypeId) :
     ∀ (cands : List (CandInfo × List DNode)) (start : Nat) (m : TagMatch),
       matchTag P stack cands start = .ok (some m) →
-      start ≤ m.idx ∧ m.idx < P.tags.length ∧ (m.info, m.alt) ∈ cands
+      start ≤ m.idx ∧ m.idx < P.tags.length ∧ (m.info, m.alt) ∈ cands ∧ P.tags[m.idx]? = some m.rule
   | [], _, _, h => by simp [matchTag] at h
   | (c, alt) :: rest, start, m, h => by
     unfold matchTag at h
     have ih := matchTag_some P stack rest start m
     split at h
-    · have := ih h; exact ⟨this.1, this.2.1, List.mem_cons_of_mem _ this.2.2⟩
+    · have := ih h; exact ⟨this.1, this.2.1, List.mem_cons_of_mem _ this.2.2.1, this.2.2.2⟩
     · rename_i hlt
       split at h
-      · have := ih h; exact ⟨this.1, this.2.1, List.mem_cons_of_mem _ this.2.2⟩
+      · have := ih h; exact ⟨this.1, this.2.1, List.mem_cons_of_mem _ this.2.2.1, this.2.2.2⟩
       · rename_i r hr
         have hlen : c.idx < P.tags.length := by
           rcases Nat.lt_or_ge c.idx P.tags.length with h' | h'
           · exact h'
           · rw [List.getElem?_eq_none h'] at hr; cases hr
         split at h
-        · have := ih h; exact ⟨this.1, this.2.1, List.mem_cons_of_mem _ this.2.2⟩
+        · have := ih h; exact ⟨this.1, this.2.1, List.mem_cons_of_mem _ this.2.2.1, this.2.2.2⟩
         · split at h
           · simp only [Except.ok.injEq, Option.some.injEq] at h; subst h
-            exact ⟨Nat.le_of_not_lt hlt, hlen, List.mem_cons_self⟩
-          · have := ih h; exact ⟨this.1, this.2.1, List.mem_cons_of_mem _ this.2.2⟩
-          · simp only [Except.ok.injEq, Option.some.injEq] at h; subst h
-            exact ⟨Nat.le_of_not_lt hlt, hlen, List.mem_cons_self⟩
+            exact ⟨Nat.le_of_not_lt hlt, hlen, List.mem_cons_self, hr⟩
+          · have := ih h; exact ⟨this.1, this.2.1, List.mem_cons_of_mem _ this.2.2.1, this.2.2.2⟩
           · cases h
 
 theorem weightCands_mem : ∀ (cands : List (CandInfo × List DNode)) (c : CandInfo) (alt : List DNode),
@@ -681,7 +698,7 @@ theorem weight_normGo : ∀ (rest acc : List DNode) (cur : Option (DNode × List
           rw [weight_normGo rest acc _]
           simp only [flushCur, weightList, weight_appendKid li c ht]; omega
         · rw [weight_normGo rest _ none]
-          simp only [flushCur, weightList, weightList_append, List.cons_append]; omega
+          simp only [flushCur, weightList, weightList_append]; omega
       · rw [weight_normGo rest _ none]
         simp only [flushCur, weightList, weightList_append]; omega
     · rw [weight_normGo rest _ _]
@@ -707,6 +724,39 @@ theorem weight_normKids (P : Parser) (tag : String) (kids : List DNode) :
   unfold normKids; split
   · exact weight_normalizeList kids
   · rfl
+
+/-! ## decidable guards on the input (hypotheses of the theorems in Props/C19.lean; evaluated by the driver) -/
+
+def GA.isRaises : GA → Bool
+  | .raises => true
+  | _ => false
+
+mutual
+/-- `strict`: no text node lacks its string and no `get_attrs` callback raises (the two things in the DOM that
+    make the real walk die with a TypeError / the callback's exception); `N`: what holds of every node a
+    `get_content` callback hands over -/
+def DNode.ok (strict : Bool) (N : Node → Bool) : DNode → Bool
+  | .elem _ styles cands kids =>
+    (!strict || styles.all (fun d => d.getAttrs.all (fun x => !x.2.isRaises))) && candsOk strict N cands && listOk strict N kids
+  | .text t => !strict || t.isSome
+  | .other => true
+def listOk (strict : Bool) (N : Node → Bool) : List DNode → Bool
+  | [] => true
+  | k :: ks => k.ok strict N && listOk strict N ks
+def candsOk (strict : Bool) (N : Node → Bool) : List (CandInfo × List DNode) → Bool
+  | [] => true
+  | c :: cs => pairOk strict N c && candsOk strict N cs
+def pairOk (strict : Bool) (N : Node → Bool) : CandInfo × List DNode → Bool
+  | (c, alt) => (!strict || !c.ga.isRaises) && c.nodes.all N && listOk strict N alt
+end
+
+/-- every rule names node / mark types the schema has, and every style rule that is neither `ignore` nor
+    `clear_mark` names a mark (else `schema.nodes[…]` / `schema.marks[…]` raises KeyError when the rule fires) -/
+def Parser.rulesOk (P : Parser) : Bool :=
+  P.tags.all (fun r => r.node != some none && r.mark != some none) &&
+  P.styles.all (fun r => r.ignore || r.clearMark.isSome || (match r.mark with
+    | some (some _) => true
+    | _ => false))
 
 /-! ## the walk -/
 
@@ -791,7 +841,7 @@ decreasing_by
   · have hm := decideTag_byRule _ _ _ hd
     subst hm
     have := matchTag_some P _ _ _ _ h
-    have := weightCands_mem _ _ _ this.2.2
+    have := weightCands_mem _ _ _ this.2.2.1
     apply Prod.Lex.left; omega
   · apply Prod.Lex.left; rw [weight_normKids]; omega
 end
